@@ -48,11 +48,11 @@ OPEN_STATEMENTS = [
     'rotate_qubit_by_pauli_sound is proved for exact (c, s) with c^2 + s^2 = 1 in the exact regime of the four sums '
     '(ExactAdd); not proved: that numpy.cos / numpy.sin deliver such a pair (floats: Spec oracle at 1e-9) and the case '
     'where a partial sum is pruned by the 1e-8 tolerance',
-    'freeze_orbitals_sound (whole operators, several distinct frozen orbitals, prune=False) is proved at the live '
-    'tolerance against Spec.applyOp .fermion under the per-run exact-regime flag (every `tmp_operator +=` of every pass '
-    'exact; counted as exact-regime(freeze):True/False); not proved: prune=True (the order-preserving relabelling of '
-    'prune_unused_indices preserves the matrix elements: exact embedded-matrix-element oracle only), repeated frozen '
-    'indices, and runs whose flag is False',
+    'freeze_orbitals_sound (whole operators, several distinct frozen orbitals) is proved at the live tolerance against '
+    'Spec.applyOp .fermion for prune=False and prune=True (the latter in the form the oracle evaluates: Spec.C16.embed S '
+    'occupied with S the increasing list of used modes; prune_unused_indices_sound separately) under the per-run '
+    'exact-regime flag (every `tmp_operator +=` of every pass exact; counted as exact-regime(freeze):True/False); not '
+    'proved: repeated frozen indices and runs whose flag is False',
     'scbk_sector: no theorem besides remove_indices_order_preserving; end-to-end sector spectra checked numerically '
     '(n = 4; 6 in thorough), edit_hamiltonian_for_spin / remove_indices by correspondence',
 ]
